@@ -31,7 +31,7 @@ CMP = ("x", "fun", "jac", "nfev", "njev", "nit", "message", "sk", "yk")
 
 def floors(tier):
     return {"identity_pairs_compared": 60, "switch_runs": 250, "post_switch_states_checked": 800, "switches_dropping_pairs": 40,
-            "switches_newest_pair_rejected": 5, "restart_equivalence_checked": 250, "initial_call_rewrites_on_restart": 100, "switch_runs_with_new_objective_undefined_at_an_old_iterate": 40, "switch_runs_with_inert_differencing_step": 100, "__nontrivial__": 40}
+            "switches_newest_pair_rejected": 5, "restart_equivalence_checked": 250, "initial_call_rewrites_on_restart": 100, "pairs_of_zero_iteration_continuations_checked": 60, "switch_runs_with_new_objective_undefined_at_an_old_iterate": 40, "switch_runs_with_inert_differencing_step": 100, "__nontrivial__": 40}
 
 
 def cases(tier, seed):
@@ -67,7 +67,7 @@ def cases(tier, seed):
                            starts=("interior", "face", "vertex"), condmax=1e3)
         yield {"kind": "switch_on_restart", "problem": ps, "maxcor": int(rng.integers(1, 7)), "stop_at": int(rng.integers(1, 8)),
                "variant": gen.pick(rng, ["rescale", "reg", "indefinite", "indefinite"]), "vseed": int(rng.integers(0, 2**31 - 1)),
-               "strength": float(rng.uniform(0.3, 3.0)), "eps_SY": float(gen.pick(rng, [2.2e-16, 2.2e-16, 1e-3, 1e-2, 0.1])),
+               "strength": float(rng.uniform(0.3, 3.0)), "eps_SY": float(gen.pick(rng, [2.2e-16, 2.2e-16, 1e-3, 1e-2, 0.1, 0.1, 0.3, 0.5])),
                "rewrite": gen.pick(rng, ["new_deque", "new_deque", "same_deque", "same_arrays"]), "fd_step": float(gen.pick(rng, [1e-3, 1e-2, 0.1])) if i % 3 == 1 else None}
 
 
@@ -423,6 +423,19 @@ def run_switch_on_restart(spec, out):
             return fB(np.array(x, copy=True)), fB(xo), gB(np.array(x, copy=True)), Gn
         return f0, f0_old, grad, G
 
+    # a continuation that performs no iteration: what it returns is the rewritten, filtered history itself; every pair it carries must
+    # satisfy the curvature condition with the threshold the user configured
+    zero = probes.run_min(S, dict(cfg, maxiter=spec["stop_at"]), hooks={"ufd": ufd}, checkpoint=probes.deep(ck), x0=np.array(ck.x, dtype=float, copy=True))
+    if zero.exc is None and info["nX"] is not None and zero.snap["sk"] is not None:
+        for j2 in range(zero.snap["sk"].shape[0]):
+            sv, yv = zero.snap["sk"][j2], zero.snap["yk"][j2]
+            sy, yy = float(sv @ yv), float(yv @ yv)
+            out.count("pairs_of_zero_iteration_continuations_checked")
+            if not sy > eps_sy * yy * (1 - 1e-9):
+                out.violate("retained_pair_violates_curvature_condition", f"{name}: a continuation that performs no iteration returns pair {j2} with "
+                            f"s.y={sy!r}, y.y={yy!r}: s.y/y.y = {sy / yy if yy else float('nan'):.3e} <= eps_SY", **tags)
+                return
+    info["calls"], info["nX"] = 0, None
     live = probes.run_min(S, dict(cfg, maxiter=spec["stop_at"] + 1, cb="never"), hooks={"ufd": ufd}, checkpoint=ck, x0=np.array(ck.x, dtype=float, copy=True))
     if live.exc is not None:
         out.violate("switch_run_raised", f"{name}: {live.exc!r}", exc=type(live.exc).__name__, **tags)
